@@ -171,11 +171,14 @@ def make_callable(fid: str, fd: dict):
         # a DATACLASS as the pipeline function: constructing it is the call, the instance is the result (it carries the term).
         # Every parameter with a default in the description ALSO has a (different) field default on the dataclass: the
         # explicit PipeFunc default must win.
-        lines = ["import dataclasses", "@dataclasses.dataclass(kw_only=True)", f"class {fd['name']}:"]
+        lines = ["import dataclasses", "@dataclasses.dataclass(kw_only=True, repr=False, eq=False)", f"class {fd['name']}:"]
         for p_, n in zip(fd["params"], names):
             dflt = " = dataclasses.field(default_factory=lambda: _b.Term('@dcfield_" + n + "'))" if p_ in (fd.get("defaults") or {}) else ""
             lines.append(f"    {n}: object{dflt}")
-        lines += ["    def __post_init__(self):",
+        lines += ["    def __repr__(self):", "        return repr(self._pfverif_term)",        # prints like the term it stands for
+                  "    def __eq__(self, o):", "        return _b.canon(self) == _b.canon(o)",
+                  "    def __hash__(self):", "        return hash(self._pfverif_term)",
+                  "    def __post_init__(self):",
                   f"        self._pfverif_term = _b.invoke({fid!r}, {{" + ", ".join(f"{p_!r}: self.{n}" for p_, n in zip(fd["params"], names)) + "})"]
         ns = {"_b": __import__("pfverif.build", fromlist=["x"])}
         exec("\n".join(lines), ns)  # noqa: S102
